@@ -1,7 +1,184 @@
-import Driver.Proto
+import Driver.BusUtil
 namespace Driver
+open GbVerif
 
-/-- C16 correspondence (stub) -/
-def checkC16 (l : Line) : Verdict := .bad s!"stream {l.stream} not implemented"
+/-- events of a C16 scenario: a bus write, or a catch-up batch of `n` clocks -/
+inductive Ev16 where
+  | w (a v : Nat)
+  | b (n : Nat)
+
+def parseEvs16 (s : String) : List Ev16 :=
+  if s = "" then [] else (s.splitOn ",").filterMap fun t =>
+    match t.splitOn ":" with
+    | ["w", a, v] => some (.w (parseNat a) (parseNat v))
+    | ["b", n] => some (.b (parseNat n))
+    | _ => none
+
+/-- `prefill` of harness/src/s_c16.rs -/
+def prefillBus (l : Line) : Bus.State :=
+  let s := mkBus l
+  { s with
+    vram := (Array.range 0x2000).map fun i => romByte (0x8000 + i + 12345)
+    cram := (Array.range (l.inN "ramb")).map fun i => romByte (i + 54321)
+    wram := (Array.range 0x2000).map fun i => romByte (0xc000 + i + 12345)
+    oam := (Array.range 0xa0).map fun i => romByte (0xfe00 + i + 12345)
+    hram := (Array.range 127).map fun i => romByte (0xff80 + i + 12345) }
+
+/-- `other_digest`: every RAM byte outside OAM and the I/O window -/
+def otherDigest (s : Bus.State) : UInt64 := Id.run do
+  let mut h := fnv0
+  for b in s.vram do h := fnv h b
+  for b in s.cram do h := fnv h b
+  for b in s.wram do h := fnv h b
+  for b in s.hram do h := fnv h b
+  return fnv h (s.io.ie ||| s.io.ieUpper)
+
+/-- I/O registers that advance with time (DIV, TIMA, IF, STAT, LY): when they are the DMA source (page 0xFF) the
+value copied is the one at the byte's own machine cycle, which only the first byte of a batch shares with the
+read taken just before the batch; the batch-invariance stream `c16.inv` covers them. The bus model has no time. -/
+def volatileOff (i : Nat) : Bool := i == 0x04 || i == 0x05 || i == 0x0f || i == 0x41 || i == 0x44
+
+structure Rec16 where
+  ab : Nat
+  pb : Nat
+  sb : Nat
+  aa : Nat
+  pa : Nat
+  oam0 : Array Nat
+  src : Array Nat
+  oam1 : Array Nat
+  d0 : String
+  d1 : String
+deriving Inhabited
+
+def parseRec16 (s : String) : Option Rec16 :=
+  match s.splitOn ":" with
+  | [ab, pb, sb, aa, pa, o0, src, o1, d0, d1] =>
+    some { ab := parseNat ab, pb := parseNat pb, sb := parseNat sb, aa := parseNat aa, pa := parseNat pa,
+           oam0 := parseBytes o0, src := parseBytes src, oam1 := parseBytes o1, d0 := d0, d1 := d1 }
+  | _ => none
+
+def runEvs16 (s : Bus.State) (evs : List Ev16) : Except String Bus.State := do
+  let mut s := s
+  for e in evs do
+    match e with
+    | .w a v => match Bus.write s a v with
+      | .ok s' => s := s'
+      | .error _ => throw s!"model panics on write {a}:{v}"
+    | .b n => match Bus.runDma s n with
+      | .ok s' => s := s'
+      | .error _ => throw s!"model panics in a DMA batch of {n} clocks"
+  return s
+
+def dmaProgress (s : Bus.State) : Nat × Nat := match s.dma with
+  | some (_, off) => (1, off)
+  | none => (0, 160)
+
+def checkC16Main (l : Line) : Verdict := Id.run do
+  let evs := parseEvs16 (l.inS "ev")
+  let recs := ((l.outS "r").splitOn ";").filterMap parseRec16
+  let nb := evs.foldl (fun k e => match e with | .b _ => k + 1 | _ => k) 0
+  if recs.length != nb || nb == 0 then return .bad s!"{recs.length} records for {nb} batches"
+  -- spec, from the implementation's own outputs
+  let mut page : Option Nat := none
+  let mut active := false
+  let mut prog := 160
+  let mut copied := 0
+  let mut rs := recs
+  for e in evs do
+    match e with
+    | .w a v => if a == 0xff46 then page := some v; active := true; prog := 0
+    | .b n =>
+      let r := rs.head!
+      rs := rs.tail!
+      if r.oam0.size != 160 || r.oam1.size != 160 then return .bad "malformed OAM dump"
+      if (r.ab == 1) != active then return .specDiff s!"DMA active={r.ab} before a batch, expected {active}"
+      if r.d0 != r.d1 then return .specDiff s!"a catch-up batch of {n} clocks changed RAM outside OAM"
+      if active then
+        let pg := page.getD 0
+        if r.src.size != 160 then return .bad "malformed source dump"
+        if r.pb != prog then return .specDiff s!"progress {r.pb} before the batch, expected {prog}"
+        if r.sb != pg * 256 then return .specDiff s!"DMA source {r.sb} after writing page {pg} to 0xFF46"
+        let pa := min (prog + n / 4) 160
+        if r.pa != pa then return .specDiff s!"progress {r.pa} after {n} clocks from {prog}, expected {pa} (one byte per machine cycle)"
+        if (r.aa == 1) != (pa < 160) then return .specDiff s!"DMA active={r.aa} with progress {pa} (finished exactly after 160 machine cycles)"
+        for i in [0:160] do
+          if prog ≤ i && i < pa then
+            if !(pg == 0xff && volatileOff i && i != prog) && r.oam1[i]! != r.src[i]! then
+              return .specDiff s!"OAM[{i}]={r.oam1[i]!} after the batch, source byte {pg * 256 + i} read {r.src[i]!}"
+          else if r.oam1[i]! != r.oam0[i]! then
+            return .specDiff s!"OAM[{i}] changed from {r.oam0[i]!} to {r.oam1[i]!} outside the copied range [{prog},{pa})"
+        copied := copied + (pa - prog)
+        prog := pa
+        active := pa < 160
+      else
+        if r.aa != 0 || r.pa != 160 then return .specDiff "an idle DMA became active without a write to 0xFF46"
+        if r.oam1 != r.oam0 then return .specDiff "OAM changed while no DMA was active"
+  -- model
+  let mut s := prefillBus l
+  let mut tainted := false
+  rs := recs
+  for e in evs do
+    match e with
+    | .w a v =>
+      if a == 0xff46 && v == 0xff then tainted := true
+      match Bus.write s a v with
+      | .ok s' => s := s'
+      | .error _ => return .modelDiff s!"model panics on write {a}:{v}"
+    | .b n =>
+      let r := rs.head!
+      rs := rs.tail!
+      match Bus.runDma s n with
+      | .error _ => return .modelDiff s!"model panics in a DMA batch of {n} clocks"
+      | .ok s' =>
+        s := s'
+        let (a, p) := dmaProgress s
+        if a != r.aa || p != r.pa then return .modelDiff s!"progress model=({a},{p}) impl=({r.aa},{r.pa})"
+        for i in [0:160] do
+          if !(tainted && volatileOff i) && s.oam[i]! != r.oam1[i]! then
+            return .modelDiff s!"OAM[{i}] model={s.oam[i]!} impl={r.oam1[i]!} after a batch of {n}"
+  if toString (otherDigest s) != l.outS "fd" then return .modelDiff s!"final RAM digest model={otherDigest s} impl={l.outS "fd"}"
+  return .ok (copied > 0)
+
+def checkC16Inv (l : Line) : Verdict := Id.run do
+  let of := l.outS "of"; let oc := l.outS "oc"; let or := l.outS "or"
+  if of.length != 320 then return .bad "malformed OAM dump"
+  -- spec: the result does not depend on how the time is split into batches
+  if of != oc then return .specDiff "final OAM differs between 4-clock batches and one batch per gap"
+  if of != or then return .specDiff "final OAM differs between 4-clock batches and the random split"
+  if l.outS "df" != l.outS "dc" || l.outS "df" != l.outS "dr" then return .specDiff "RAM outside OAM depends on the batch split"
+  if l.outS "pf" != l.outS "pc" || l.outS "pf" != l.outS "pr" then return .specDiff "DMA progress depends on the batch split"
+  -- model on the random split
+  let page := l.inN "page"
+  let segs : List (Nat × Nat × Nat) := if l.inS "segs" = "" then [] else ((l.inS "segs").splitOn ",").filterMap fun t =>
+    match t.splitOn ":" with
+    | [g, a, v] => some (parseNat g, parseNat a, parseNat v)
+    | _ => none
+  let part : List (List Nat) := ((l.inS "part").splitOn ",").map fun t => (t.splitOn "+").map parseNat
+  let mut evs : List Ev16 := []
+  if l.inN "pre" > 0 then evs := evs ++ [.b (l.inN "pre")]
+  evs := evs ++ [.w 0xff46 page]
+  let mut k := 0
+  for p in part do
+    evs := evs ++ p.map Ev16.b
+    match segs[k]? with
+    | some (_, a, v) => evs := evs ++ [.w a v]
+    | none => pure ()
+    k := k + 1
+  let tainted := page == 0xff || segs.any fun (_, a, v) => a == 0xff46 && v == 0xff
+  match runEvs16 (prefillBus l) evs with
+  | .error m => return .modelDiff m
+  | .ok s =>
+    let o := parseBytes or
+    for i in [0:160] do
+      if !(tainted && volatileOff i) && s.oam[i]! != o[i]! then
+        return .modelDiff s!"final OAM[{i}] model={s.oam[i]!} impl={o[i]!}"
+    if toString (otherDigest s) != l.outS "dr" then return .modelDiff "final RAM digest"
+    if toString (dmaProgress s).2 != l.outS "pr" then return .modelDiff "final progress"
+    return .ok true
+
+/-- C16: OAM DMA scenarios on the real `MemoryAreas` -/
+def checkC16 (l : Line) : Verdict :=
+  if l.stream == "c16.inv" then checkC16Inv l else checkC16Main l
 
 end Driver
